@@ -112,6 +112,10 @@ def f_r2_init(schema: Schema, rep: Report):
         vals.append(text(v))
     good = {f"{kw}.pop({attr}, None)", f"{kw}.get({attr}, None)", f"{kw}.get({attr})", f"{kw}.pop({attr})", f"{kw}[{attr}]"}
     ok = bool(vals) and all(v in good for v in vals)
+    if not ok and vals and set(vals) - {"None"} and all(v in good or v == "None" for v in vals):
+        # `kw.pop(attr) if attr in kw else None`: None exactly where the keyword is absent
+        tests = {text(norm(t_)) for t_ in [x.test for x in ast.walk(fn) if isinstance(x, (ast.If, ast.IfExp))]}
+        ok = bool(tests & {f"{attr} in {kw}", f"{attr} not in {kw}", f"not {attr} in {kw}"})
     rep.check("F-R2", "__init__:value-is-own-kwarg-default-None", ok, f"value set is {vals}; expected the keyword of the same name, None when absent" if not ok else "", f"{rel}:{sets[0].stmt.lineno}")
     # handlers around the setattr must re-raise
     st = sets[0].stmt
